@@ -34,14 +34,14 @@ def roundtrip(ctx, T, cfgv):
         raise Unsupported('constructor does not yield one Ok path for a 4:4:4 config')
     s, y = outs[0]
     yptr = Ptr(s.alloc(y), ())
-    dec = it.call_fn(s, ctx.entry(CONVERSIONS['Yuv->Rgb'][0].format(T=T)), [yptr])
+    dec = drop_empty_image_outcomes(ctx, it.call_fn(s, ctx.entry(CONVERSIONS['Yuv->Rgb'][0].format(T=T)), [yptr]))
     dec = [(s2, v) for s2, v in dec if is_ok(ctx.crate, v)]
     if len(dec) != 1:
         raise Unsupported('decode does not yield one Ok outcome')
     s2, r = dec[0]
     rgb = r.fields[0]
     tup = find_type(ctx.crate, '(&rgb::Rgb, yuv::YuvConfig)')
-    enc = it.call_fn(s2, ctx.entry(CONVERSIONS['Rgb->Yuv'][0].format(T=T)), [Agg('tuple', tup, [Ptr(s2.alloc(rgb), ()), cfgv])])
+    enc = drop_empty_image_outcomes(ctx, it.call_fn(s2, ctx.entry(CONVERSIONS['Rgb->Yuv'][0].format(T=T)), [Agg('tuple', tup, [Ptr(s2.alloc(rgb), ()), cfgv])]))
     enc = [(s3, v) for s3, v in enc if is_ok(ctx.crate, v)]
     if len(enc) != 1:
         raise Unsupported('encode does not yield one Ok outcome')
